@@ -25,9 +25,17 @@ def claim(pid, text, note=NOTE, ref="DESIGN.md §5"):
 
 claim("C04", "closed-world `raises` clause of every loader closure under contract: on every path of the real AST, for every "
              "datum of D and every behaviour of sub-loaders under LD, the escaping exception is a LoadError; proved for all "
-             "inputs and all sequence lengths (loops cut by inductive invariants)")
+             "inputs and all sequence lengths (loops cut by inductive invariants); the same clause for every generated model loader",
+      note=NOTE + " C04-specific: loaders that are not repository code (UUID / ipaddress / pathlib constructors, builtin lax loaders such as "
+                  "`str`) have no AST to execute: they are probed per cell of D, plain and inside a list, in all six configurations (no "
+                  "solver; labelled bounded). Non-string unknown keys reach the real constructor only in the native twin of GENPROG.")
 claim("C02", "function-against-spec: accept-iff / value / documented-rejection clauses transcribed from "
-             "specific-types-behavior.rst, proved for every scalar loader and the composed iterable and dict loaders")
+             "specific-types-behavior.rst, proved for every scalar loader, the composed iterable, dict, tuple, union, literal, enum and "
+             "flag loaders, and for the container dumpers (iterable, dict, tuple in the three debug-trail modes against one spec; union "
+             "dumper = ClassDispatcher.dispatch on type(data), proved first-in-MRO; optional dumper; list children dump as list)",
+      note=NOTE + " C02-specific: documented type aliases (Mapping ~ Dict, abstract iterables ~ their implementation) are decided by a "
+                  "bounded equivalence check; loaders that are not repository code (stdlib constructors registered as loaders, builtin lax "
+                  "loaders) are probed per cell of D in all six configurations (no solver; labelled bounded).")
 claim("C05", "trail post-conditions (exact top element, old trail kept, ALL mode sound+complete+exactly-once) proved with loop "
              "invariants over symbolic sequences for the iterable, dict, tuple and union loaders and for every generated model loader "
              "of the GENPROG family; leaf loaders carry the offending datum",
